@@ -438,6 +438,41 @@ def check_no_mutation(chk, MX, tmp):
             continue
 
 
+def check_same_names(chk, MX):
+    """scenes and aircraft are independent of each other: an aircraft description means what it says, whatever was built before under
+    the same names (a caller editing its own dictionary between builds; two aircraft that both call their section "af0")"""
+    rng = chk.rng
+    for k in range(chk.q(2, 8)):
+        ac = gen.simple_wing_aircraft(N=4, reid=False, CLa=6.2)
+        sd = {"solver": {"type": "nonlinear"}, "scene": {"atmosphere": {"rho": 0.0023769}}}
+        st = {"velocity": 80.0 + 5 * k, "alpha": 3.0, "beta": 1.0}
+        edited = copy.deepcopy(ac)
+        edited["airfoils"]["af0"].update(CLa=round(rng.uniform(3.5, 5.0), 3), aL0=round(rng.uniform(-0.08, -0.05), 3), CD0=0.012)
+        uniq = "section_%d_%d" % (k, rng.randrange(10 ** 6))
+        renamed = copy.deepcopy(edited)
+        renamed["airfoils"] = {uniq: renamed["airfoils"]["af0"]}
+        for w in renamed["wings"].values():
+            w["airfoil"] = uniq
+        rep = dict(kind="same-names", aircraft=ac, edited_airfoil=edited["airfoils"]["af0"], state=st, k=k)
+        chk.case(dict(kind="same-names", k=k, two=(k % 2 == 1)), nontrivial=True)
+        chk.count("independence:same-names")
+        try:
+            first = api.solve(gen.build_scene(MX, sd, [("a", ac, st, {})]))
+            if k % 2 == 0:
+                got = api.solve(gen.build_scene(MX, sd, [("a", edited, st, {})]))
+                ref = api.solve(gen.build_scene(MX, sd, [("a", renamed, st, {})]))
+            else:
+                st2 = dict(st, position=[0.0, 80.0, 0.0])
+                got = api.solve(gen.build_scene(MX, sd, [("a", ac, st, {}), ("b", edited, st2, {})]))
+                ref = api.solve(gen.build_scene(MX, sd, [("a", ac, st, {}), ("b", renamed, st2, {})]))
+            bad = api.compare(got, ref, rtol=1e-12, atol=1e-13)
+            if bad:
+                chk.violation("independence:same-names", dict(rep, what="an aircraft whose airfoil has the name used by an earlier aircraft does not get the loads of its own description "
+                                                                        "(the same description under a new airfoil name does)", differences=bad[:6]))
+        except Exception as e:
+            chk.count("same-names-error=" + type(e).__name__)
+
+
 # ----------------------------------------------------------------------------- D. exported surfaces
 def f32(a):
     return np.asarray(a, dtype=np.float32).astype(np.float64)
@@ -694,6 +729,7 @@ def run(chk):
         check_files(chk, MX, tmp)
         check_cli(chk, MX, tmp)
         check_no_mutation(chk, MX, tmp)
+        check_same_names(chk, MX)
         check_exports(chk, MX, tmp)
         check_outline_blend(chk, MX, tmp)
         check_scene_stl(chk, MX, tmp, chk.q(2, 12))
